@@ -4,7 +4,7 @@ from harness import common
 
 CHECKS = {
   "C01": seq.c01, "C02": seq.c02, "C03": seq.c03, "C14": seq.c14, "C15": seq.c15,
-  "C19": seq.c19, "C20": seq.c20, "C21": seq.c21, "C22": seq.c22, "C23": seq.c23, "C24": seq.c24, "C17": seq.c17, "C18": seq.c18, "C04": conc.c04, "C05": conc.c05, "C16": conc.c16, "C06": fab.c06, "C08": fab.c08, "C13": fab.c13, "C07": pubsub.c07, "C09": pubsub.c09, "C10": timers.c10, "C11": timers.c11, "C12": timers.c12, "C31": timers.c31, "C30": util.c30, "C25": util.c25, "C26": util.c26, "C27": tsa.c27, "C28": tsa.c28, "C29": tsa.c29,
+  "C19": seq.c19, "C20": seq.c20, "C21": seq.c21, "C22": seq.c22, "C23": seq.c23, "C24": seq.c24, "C17": seq.c17, "C18": seq.c18, "C04": conc.c04, "C05": conc.c05, "C16": conc.c16, "C06": fab.c06, "C08": fab.c08, "C13": fab.c13, "C07": pubsub.c07, "C09": pubsub.c09, "C10": timers.c10, "C11": timers.c11, "C12": timers.c12, "C31": timers.c31, "C30": util.c30, "C25": util.c25, "C26": util.c26, "C32": util.c32, "C27": tsa.c27, "C28": tsa.c28, "C29": tsa.c29,
 }
 
 
